@@ -293,3 +293,62 @@ Proof.
   inversion H as [|? ? _ H1]; subst. inversion H1 as [|? ? _ H2]; subst.
   inversion H2 as [|? ? _ H3]; subst. inversion H3 as [|? ? H4 _]; subst. discriminate H4.
 Qed.
+
+(* ---------- 7. (round 7) GOAWAY sequences ---------- *)
+
+Lemma goaway_fold_spec : forall lasts kept resent kept' resent',
+  fold_left goaway_step lasts (kept, resent) = (kept', resent') ->
+  (forall id, In id kept' <-> In id kept /\ forall l, In l lasts -> id <= l) /\
+  (forall id, In id resent' <-> In id resent \/ (In id kept /\ exists l, In l lasts /\ l < id)).
+Proof.
+  induction lasts as [|l lasts IH]; simpl; intros kept resent kept' resent' H.
+  - inversion H; subst. split; intros id; split; intros X; try tauto.
+    + destruct X as [X|[_ [l [[] _]]]]; auto.
+  - apply IH in H. destruct H as [H1 H2]. split; intros id.
+    + rewrite H1. rewrite filter_In. rewrite Nat.leb_le. split.
+      * intros [[A B] C]. split; auto. intros l' [E|E]; subst; auto.
+      * intros [A B]. repeat split; auto.
+    + rewrite H2. rewrite in_app_iff. rewrite !filter_In. rewrite negb_true_iff, Nat.leb_gt, Nat.leb_le. split.
+      * intros [[A|[A B]]|[[A B] [l' [C D]]]]; auto.
+        -- right. split; auto. exists l; auto.
+        -- right. split; auto. exists l'; auto.
+      * intros [A|[A [l' [[E|E] D]]]]; auto.
+        -- subst. left. right. auto.
+        -- destruct (le_lt_dec id l) as [L|L].
+           ++ right. split; auto. exists l'; auto.
+           ++ left. right. auto.
+Qed.
+
+(* for EVERY sequence of GOAWAY frames: an outstanding stream stays on the connection iff its id
+   is at or below every announced last-stream-id, and is sent again elsewhere iff it is above
+   one of them - whichever frame of the sequence that is; no outstanding request is lost *)
+Theorem goaway_every_frame_counts : forall open lasts,
+  let '(kept, resent) := goaway_run open lasts in
+  (forall id, In id kept <-> In id open /\ forall l, In l lasts -> id <= l) /\
+  (forall id, In id resent <-> In id open /\ exists l, In l lasts /\ l < id) /\
+  (forall id, In id open -> In id kept \/ In id resent).
+Proof.
+  intros open lasts. unfold goaway_run.
+  destruct (fold_left goaway_step lasts (open, [])) as [kept resent] eqn:E.
+  apply goaway_fold_spec in E. destruct E as [H1 H2].
+  split; [exact H1|]. split.
+  - intros id. rewrite H2. split.
+    + intros [[]|X]; exact X.
+    + intros X; right; exact X.
+  - intros id Hin.
+    destruct (forallb (fun l => id <=? l) lasts) eqn:F.
+    + left. apply H1. split; auto. intros l Hl. rewrite forallb_forall in F. apply Nat.leb_le. auto.
+    + right. apply H2. right. split; auto.
+      assert (X : existsb (fun l => negb (id <=? l)) lasts = true).
+      { clear - F. induction lasts as [|l r IH]; simpl in *; [discriminate|].
+        destruct (id <=? l); simpl in *; auto. }
+      apply existsb_exists in X. destruct X as [l [Hl Hn]]. exists l. split; auto.
+      apply negb_true_iff, Nat.leb_gt in Hn. auto.
+Qed.
+
+(* the seeded variant: graceful shutdown 2^31-1 then 3 with streams 1, 3, 5 outstanding:
+   stream 5 stays on a connection whose peer will never answer it *)
+Theorem goaway_first_only_refuted :
+  goaway_run [1; 3; 5] [goaway_max; 3] = ([1; 3], [5]) /\
+  goaway_run_first_only [1; 3; 5] [goaway_max; 3] = ([1; 3; 5], []).
+Proof. vm_compute. split; reflexivity. Qed.
